@@ -57,6 +57,9 @@ def shards(tier, seed):
         out.append({"name": f"sim{i}", "mode": "sim", "cfgs": cfgs[i::m]})
     out.append({"name": "solvers", "mode": "solvers"})
     out.append({"name": "numba", "mode": "numba"})
+    if tier == "thorough":
+        # the repository's own ~740 tests as an extra workload for M1/M2 and the runtime contracts
+        out.append({"name": "repotests", "mode": "repotests", "timeout": 3300})
     return out
 
 
@@ -251,7 +254,52 @@ def _run_numba(sh, rec):
                 rec.case(("stacked-spread", d, kern, ncomp), sample={"dim": d, "kernel": kern, "components": ncomp, "markers": N, "bitwise_repeatable": same})
 
 
+def _run_repotests(sh, rec):
+    import glob
+    import json
+    import os
+    import subprocess
+
+    from .. import env
+
+    with util.TempDir() as tmp:
+        out = os.path.join(tmp, "out")
+        e = env.child_env({"RV_PYTEST_OUT": out})
+        cmd = [env.PYTHON, "-m", "pytest", os.path.join(env.REPO, "tests"), "-p", "rv.pytest_monitor", "-q", "-p", "no:cacheprovider", "--rootdir", env.REPO,
+               "--timeout=900", "-n", "10", "--deselect", "tests/test_utils/test_restart.py", "--ignore", os.path.join(env.REPO, "tests/test_utils/test_restart.py")]
+        r = subprocess.run(cmd, cwd=tmp, env=e, capture_output=True, text=True, timeout=3200)
+        tail = r.stdout.strip().splitlines()[-1] if r.stdout.strip() else ""
+        rec.note(f"repo tests under monitors: {tail}")
+        ks = calls = 0
+        evals = {}
+        for f in glob.glob(os.path.join(out, "*.json")):
+            with open(f) as fh:
+                d = json.load(fh)
+            ks += d["kernels_seen"]
+            calls += d["kernel_calls_checked"]
+            for k, v in d["legal_aliasings"].items():
+                rec.count("legal:" + k, v)
+                rec.count("legal_aliasings_observed", v)
+            for v in d.get("alias_violation_list", []):
+                key = f"{v['monitor']}:{v['gen']}:" + (v.get("field") or f"{v.get('written')}~{v.get('other')}")
+                rec.violation(key, f"observed while the repository's own tests ran: {v}", v)
+            for k, n in d["contracts"]["evaluations"].items():
+                evals[k] = evals.get(k, 0) + n
+            for v in d["contracts"]["violations"]:
+                rec.violation("contract:" + v["contract"], f"while the repository's own tests ran: {v['detail']}", v)
+        rec.count("kernels_seen", ks)
+        rec.count("kernel_calls_checked", calls)
+        rec.count("repo_test_kernel_calls", calls)
+        for k, n in evals.items():
+            rec.count("contract:" + k, n)
+        if calls == 0:
+            rec.inconclusive_(f"repository tests produced no monitored kernel call: {tail} {r.stderr[-300:]}")
+        rec.case(("repo-test-suite",), sample={"pytest": tail, "kernel_calls": calls, "contract_evaluations": evals})
+
+
 def run_shard(sh, rec):
+    if sh["mode"] == "repotests":
+        return _run_repotests(sh, rec)
     kernelspy.install()
     mode = sh["mode"]
     if mode == "diff":
